@@ -314,7 +314,9 @@ func TestC01Pure(t *testing.T) {
 		case 1:
 			stored.PublicKey, storedOK, storedWhat = stored.PublicKey+"zz", false, "non-hex public key"
 		case 2:
-			stored.PublicKey, storedOK, storedWhat = stored.PublicKey[:len(stored.PublicKey)-1], false, "odd-length hex public key"
+			if len(stored.PublicKey) > 0 {
+				stored.PublicKey, storedOK, storedWhat = stored.PublicKey[:len(stored.PublicKey)-1], false, "odd-length hex public key"
+			}
 		case 3:
 			stored.PrivateKey, storedOK, storedWhat = stored.PrivateKey[:c.Int("priv.trunc", 0, 63)*2], false, "short private key"
 		case 4:
